@@ -36,6 +36,12 @@ def write_baseline(chk):
         if "abstracted" in u:
             base[u["unit"]] = u["abstracted"]
     json.dump(base, open(p, "w"), indent=1, sort_keys=True)
+    pl = os.path.join(ROOT, "baseline", "loops.json")
+    loops = json.load(open(pl)) if os.path.exists(pl) else {}
+    for u in chk.unit_results:
+        if u.get("loop_headers"):
+            loops[u["unit"]] = u["loop_headers"]
+    json.dump(loops, open(pl, "w"), indent=1, sort_keys=True)
     from pyvc.driver import tree_hashes
     json.dump(tree_hashes(), open(os.path.join(ROOT, "baseline", "tree.json"), "w"), indent=1, sort_keys=True)
     from pyvc.repo import Repo
